@@ -647,11 +647,11 @@ theorem baryCoeffs_eq_field (w : Weights F) (z : F) :
 end field
 
 /-- nothing the translator emitted is left without a tie theorem (the protocol functions `commit`,
-`generateChallenges`, `CreateIPAProof`, `CheckIPAProof`, `CheckMultiProof`, `domainToFr` are tied in `Tie/Protocol.lean`, `CreateMultiProof` in `Tie/ProtocolMp.lean`, `groupPolynomialsByEvaluationPoint` and its goroutine body in `Tie/Grouping.lean`) -/
+`generateChallenges`, `CreateIPAProof`, `CheckIPAProof`, `CheckMultiProof`, `domainToFr` are tied in `Tie/Protocol.lean`, `CreateMultiProof` in `Tie/ProtocolMp.lean`, `groupPolynomialsByEvaluationPoint` and its goroutine body in `Tie/Grouping.lean`, `computeBVector` in `Tie/BVector.lean`) -/
 theorem all_translated_tied : Gen.Loops.translated =
     ["BatchInvert", "CheckIPAProof", "CheckMultiProof", "ComputeBarycentricCoefficients", "CreateIPAProof",
      "CreateMultiProof", "DivideOnDomain", "InnerProd", "NewPrecomputedWeights", "PowersOf", "absInt", "commit",
-     "computeBarycentricWeightForElement", "domainToFr", "foldPoints", "foldScalars", "generateChallenges",
+     "computeBVector", "computeBarycentricWeightForElement", "domainToFr", "foldPoints", "foldScalars", "generateChallenges",
      "getInvertedElement", "getRatioOfWeights", "groupPolynomialsByEvaluationPoint",
      "groupPolynomialsByEvaluationPointWorker", "splitPoints", "splitScalars"] := by decide
 
